@@ -147,6 +147,7 @@ pub fn op(w: Weights, maxn: u32) -> BoxedStrategy<Op> {
         (w.bulk / 2 + 1, Just(Op::FillSpare).boxed()),
         (w.bulk / 2 + 1, Just(Op::FillSpareWith).boxed()),
         (w.bulk * 2, (count(maxn), hint()).prop_map(|(m, h)| Op::Extend(m, h)).boxed()),
+        (w.bulk, (count(maxn), hint()).prop_map(|(m, h)| Op::ExtendPairs(m, h)).boxed()),
         (w.bulk * 3, count(maxn).prop_map(Op::ExtendFromSlice).boxed()),
         (w.bulk, Just(Op::MakeContiguous).boxed()),
         (w.bulk, (any::<u16>(), any::<u16>()).prop_map(|(s, l)| Op::CloneFrom(s as u32, l as u32)).boxed()),
@@ -243,7 +244,7 @@ pub fn case(p: Prop, max_ops: usize) -> BoxedStrategy<Case> {
             let len = (l as u32 * (n + 1)) >> 16;
             let _ = Fault { kind: FaultKind::Drop, k: 0, op_index: 0 };
             let fault_pick = fault.map(|(kind, k, at)| (kind, at, (k as u16).wrapping_mul(5461)));
-            Case { n, ctor, route, start, len, fill, fault: None, fault_pick, ops, salt }
+            Case { n, ctor, route, start, len, fill, fault: None, fault_pick, ops, salt, unwinding: salt % 8 == 0 }
         })
         .boxed()
 }
